@@ -344,3 +344,9 @@ def base_local(body, op, depth=6):
             return l
         depth -= 1
     return l
+
+
+def is_noise(body, bb):
+    """block belongs to a tracing/log macro expansion"""
+    m = body.term(bb).get("mac")
+    return bool(m) and any(x in ("trace", "debug", "error", "warn", "info", "event", "log") for x in m)
